@@ -43,11 +43,41 @@ def replay_g(v):
         why = loadgen.compare_outcome(v["o"], got, check_tree=_MODE["tree"])
         if why is not None:
             why += "-through-a-reused-loader"
+    last = lines[-1].strip() if lines else ""
+    if (why is None and v["o"]["r"] == "err" and v["o"].get("why") != "unclosed sections not allowed"
+            and v["o"].get("line") == len(lines) and last.startswith("<") and not last.startswith("</")
+            and last.endswith(">") and not last.endswith("/>")):
+        # the feed machine stops at the first refused line, so a text whose last line is a section header that the
+        # specification refuses ends there and would fail on the code anyway ("unclosed section"): a refusal is
+        # final, so the same text with every open section closed must be refused as well - a header the code
+        # wrongly lets in shows here
+        closers = open_sections(lines)
+        if closers:
+            text2 = text + "".join(c + "\n" for c in closers)
+            got, _ = loadgen.load_text(sch, text2, rec=_RECS[i])
+            if got["r"] == "ok":
+                why = "accepts-a-refused-text-once-its-sections-are-closed"
+                text = text2
     if why is None:
         return None
     return {"clause": why, "input": {"schema_xml": schemas.to_xml(_DOCS[i]), "text": text},
             "spec": v["o"], "observed": got, "unspecified": v["unspec"],
             "class": {"clause": why}}
+
+
+def open_sections(lines):
+    """Closing lines for the sections a text leaves open, innermost first."""
+    stack = []
+    for l in lines:
+        t = l.strip()
+        if t.startswith("</"):
+            if stack:
+                stack.pop()
+        elif t.startswith("<") and t.endswith(">") and not t.endswith("/>"):
+            body = t[1:-1].split()
+            if body:
+                stack.append(body[0])
+    return ["</%s>" % t for t in reversed(stack)]
 
 
 def nontrivial_g(v):
